@@ -23,6 +23,10 @@ def run(ctx):
     output_args(ctx, prog, A)
     metadata(ctx, prog, A)
     removal(ctx, prog, A)
+    # an existing file is never removed or replaced: exclusive creation, and the output name is remembered for
+    # cleanup() only once this process has created the file
+    from props import c16
+    c16.output_creation(ctx, prog, A)
 
 
 def _outmode_key(prog):
